@@ -195,8 +195,7 @@ def opPe (j : Json) : Except String Json := do
   let entry ← getNat j "entry"
   let stack ← getNat j "stack"
   let iat ← relocsOfJson j "iat"
-  let img : PeImage := { file := file, base := base, salign := salign, sections := secs, entryRva := entry,
-    stackReserve := stack, iat := iat }
+  let img : PeImage := ⟨file, base, salign, secs, entry, stack, iat⟩
   result j (some (loadPe fx c img)) (peWrites fx c img) none
 
 def machSegOfJson (e : Json) : Except String MachSeg := do
